@@ -41,7 +41,10 @@ def parse_model(line):
     p = parse_sx(line)
     nm = lambda xs: sorted(R.ALLVARS[i] for i in xs)
     out = {"private": nm(p[0]), "firstprivate": nm(p[1]), "sync": nm(p[2])}
-    if len(p) > 3:
+    if len(p) == 5:         # refused loop: clause sets + the static model of validate
+        out.update(frag=bool(p[3]), valid=bool(p[4]))
+    if len(p) > 5:
+        out.update(frag=bool(p[12]), valid=bool(p[13]), pairs=bool(p[14]))
         out.update(trips=p[3], indep=bool(p[4]), uncond=bool(p[5]),
                    conflict=(R.ALLVARS[p[6]] if p[6] >= 0 else None), exposed=(R.ALLVARS[p[7]] if p[7] >= 0 else None),
                    serial=p[8], verdict=p[9], static_indep=bool(p[10]), static_uncond=bool(p[11]))
@@ -201,6 +204,17 @@ def process(chk, res, findings, stats):
     if not agree:
         chk.correspondence_broken("data-sharing clauses differ from C09.inferSharing", cdesc,
                                   {k: model[k] for k in ("private", "firstprivate", "sync")}, impl)
+    # tie of the static side: on the pair fragment (every array subscript a literal or loopvar+-c) the REAL verdict of
+    # ParallelLoopTrans.validate (no force) must equal C09.validateModel = scalar rule + pair loop over ALL ordered pairs
+    if model.get("frag") and not real.get("opts_mutated") and not (real.get("opts_before") or {}).get("force"):
+        real_valid = real["status"] in ("accepted", "generation-error")
+        stats["validate_tie"][f"real={int(real_valid)},model={int(model['valid'])}"] = \
+            stats["validate_tie"].get(f"real={int(real_valid)},model={int(model['valid'])}", 0) + 1
+        if real_valid != model["valid"]:
+            ok = False
+            chk.correspondence_broken("ParallelLoopTrans.validate verdict differs from C09.validateModel (pair loop) on the pair fragment",
+                                      cdesc, {"validateModel": model["valid"]},
+                                      {"status": real["status"], "message": real["message"][:300]})
     if real["status"] != "accepted":
         chk.case(cdesc, nontrivial=False, agreed=ok)
         return
@@ -226,6 +240,12 @@ def process(chk, res, findings, stats):
         ok = False
         chk.correspondence_broken("driver contradicts C09_static_indep / C09_static_uncond", cdesc,
                                   {k: model[k] for k in ("static_indep", "static_uncond", "indep", "uncond")}, "")
+    if model.get("pairs") and not model["indep"]:
+        ok = False
+        chk.correspondence_broken("driver contradicts theorem C09_pairs_indep", cdesc,
+                                  {k: model[k] for k in ("pairs", "indep")}, "")
+    stats["pairs"][f"pairs={int(model.get('pairs', False))},frag={int(model.get('frag', False))}"] = \
+        stats["pairs"].get(f"pairs={int(model.get('pairs', False))},frag={int(model.get('frag', False))}", 0) + 1
     bad, ev = failing(res)
     # consistency of the driver with C09_partial: hypotheses hold => the model must agree with serial
     if model["indep"] and model["uncond"] and model["verdict"][0] != "ok":
@@ -338,7 +358,7 @@ def run(chk):
     findings = common.known_findings("C09")
     stats = {"status": {}, "tags": {}, "trips": {}, "hyp": {}, "schedules": 0, "gf_runs": 0, "gf_skipped": 0,
              "violations": 0, "known_class": {}, "known_class_gfortran": {}, "history_cases": 0, "histories": [], "static": {},
-             "options_mutations": 0}
+             "options_mutations": 0, "validate_tie": {}, "pairs": {}}
     runner = Runner(reps=(6 if thorough else 2))
     gen = R.Gen(chk.rng)
     n = 320 if thorough else 50
